@@ -46,12 +46,12 @@ func (p *Path) foldStep(f *FoldDecl, k, d, ch string) (string, string, bool) {
 
 func (p *Path) foldFns(f *FoldDecl) (fk, fd string) {
 	env := p.fx.env
-	fk = env.uf("uf_"+sanitize(f.Name+"K"), []string{"Slice"}, "Int")
-	fd = env.uf("uf_"+sanitize(f.Name+"D"), []string{"Slice"}, "Int")
+	fk = env.uf("uf_"+sanitize(f.Name+"K"), []string{"Ref", "Int", "Int"}, "Int")
+	fd = env.uf("uf_"+sanitize(f.Name+"D"), []string{"Ref", "Int", "Int"}, "Int")
 	key := "foldinit:" + f.Name
 	if !env.declared[key] {
 		env.declared[key] = true
-		env.decls = append(env.decls, fmt.Sprintf("(assert (forall ((s Slice)) (! (=> (= (sl.len s) 0) (and (= (%s s) %s) (= (%s s) %s))) :pattern ((%s s)))))", fk, smtInt(f.InitK), fd, smtInt(f.InitD), fk))
+		env.decls = append(env.decls, fmt.Sprintf("(assert (forall ((a Ref) (o Int) (n Int)) (! (=> (= n 0) (and (= (%s a o n) %s) (= (%s a o n) %s))) :pattern ((%s a o n)) :pattern ((%s a o n)))))", fk, smtInt(f.InitK), fd, smtInt(f.InitD), fk, fd))
 		env.assumptions["fold ghost "+f.Name+": state is a function of the slice value (append-only buffers)"] = true
 	}
 	return
@@ -92,8 +92,8 @@ func (p *Path) foldAppend(in ssa.Instruction, cc *ssa.CallCommon, s, t Val, r st
 	for i := range env.specs.Folds {
 		f := &env.specs.Folds[i]
 		fk, fd := p.foldFns(f)
-		k := fmt.Sprintf("(%s %s)", fk, s.T)
-		d := fmt.Sprintf("(%s %s)", fd, s.T)
+		k := foldApp(fk, s.T)
+		d := foldApp(fd, s.T)
 		var bytes []string
 		known := false
 		// explicit bytes: varargs array literal
@@ -135,7 +135,7 @@ func (p *Path) foldAppend(in ssa.Instruction, cc *ssa.CallCommon, s, t Val, r st
 			rk, rd := p.foldRunFns(f, env.sortOf(t.Ty) == "Str")
 			k, d = fmt.Sprintf("(%s %s %s %s)", rk, k, d, t.T), fmt.Sprintf("(%s %s %s %s)", rd, k, d, t.T)
 		}
-		p.assume(fmt.Sprintf("(and (= (%s %s) %s) (= (%s %s) %s))", fk, r, k, fd, r, d))
+		p.assume(fmt.Sprintf("(and (= %s %s) (= %s %s))", foldApp(fk, r), k, foldApp(fd, r), d))
 	}
 }
 
@@ -225,11 +225,11 @@ func (fx *FnCtx) foldAxioms() {
 			continue
 		}
 		fk, fd := "uf_"+sanitize(frag.Name+"K"), "uf_"+sanitize(frag.Name+"D")
-		env.uf(fk, []string{"Slice"}, "Int")
-		env.uf(fd, []string{"Slice"}, "Int")
+		env.uf(fk, []string{"Ref", "Int", "Int"}, "Int")
+		env.uf(fd, []string{"Ref", "Int", "Int"}, "Int")
 		rk, rd := "uf_"+sanitize(line.Name+"_runK_sl"), "uf_"+sanitize(line.Name+"_runD_sl")
-		env.decls = append(env.decls, fmt.Sprintf("; fold link: reading x from the initial state of %s is %s(x) by definition\n(assert (forall ((x Slice)) (! (and (= (%s %s %s x) (%s x)) (= (%s %s %s x) (%s x))) :pattern ((%s %s %s x)))))",
-			frag.Name, frag.Name, rk, smtInt(frag.InitK), smtInt(frag.InitD), fk, rd, smtInt(frag.InitK), smtInt(frag.InitD), fd, rk, smtInt(frag.InitK), smtInt(frag.InitD)))
+		env.decls = append(env.decls, fmt.Sprintf("; fold link: reading x from the initial state of %s is %s(x) by definition\n(assert (forall ((k Int) (d Int) (x Slice)) (! (=> (and (= k %s) (= d %s)) (and (= (%s k d x) %s) (= (%s k d x) %s))) :pattern ((%s k d x)) :pattern ((%s k d x)))))",
+			frag.Name, frag.Name, smtInt(frag.InitK), smtInt(frag.InitD), rk, foldApp(fk, "x"), rd, foldApp(fd, "x"), rk, rd))
 	}
 }
 
@@ -237,6 +237,18 @@ func (fx *FnCtx) foldAxioms() {
 func (p *Path) lemmaObligations() {
 	fx := p.fx
 	env := fx.env
+	for _, l := range env.specs.Lemmas {
+		if pt := fx.pkgTypes(); l.Pkg != "" && (pt == nil || pt.Path() != l.Pkg) {
+			continue
+		}
+		c := p.foldCtx()
+		t, err := c.EvalBool(l.E)
+		if err != nil {
+			p.specError("lemma "+l.Name, Clause{Src: l.Src}, err)
+			continue
+		}
+		p.items = append(p.items, Item{Ob: &Oblig{Name: fx.short + ".lemma." + l.Name, Fn: fx.short, Kind: "lemma", Clause: l.Src, Formula: t}})
+	}
 	pkg := fx.pkgTypes()
 	if pkg == nil {
 		return
@@ -268,4 +280,9 @@ func (p *Path) lemmaObligations() {
 		p.items = append(p.items, Item{Ob: ob})
 	}
 	_ = strings.TrimSpace
+}
+
+// foldApp: a fold accessor applied to a slice value: the state depends on (array, offset, length) only, not on the capacity.
+func foldApp(f, s string) string {
+	return fmt.Sprintf("(%s (sl.arr %s) (sl.off %s) (sl.len %s))", f, s, s, s)
 }
